@@ -36,10 +36,11 @@ type Item struct {
 }
 
 type File struct {
-	Out     string `json:"out"` // relative to -out, e.g. Gen/HeapqIdx.v
-	Src     string `json:"src"` // relative to -repo
-	Special string `json:"special,omitempty"`
-	Items   []Item `json:"items"`
+	Out     string   `json:"out"` // relative to -out, e.g. Gen/HeapqIdx.v
+	Src     string   `json:"src"` // relative to -repo
+	Special string   `json:"special,omitempty"`
+	Funcs   []string `json:"funcs,omitempty"` // special "fn": the functions to translate whole (fn.go)
+	Items   []Item   `json:"items"`
 }
 
 type lost struct{ msg string }
@@ -789,7 +790,11 @@ func main() {
 		if err != nil {
 			lostItems = append(lostItems, fmt.Sprintf("anchor %s lost: parse error: %v", fl.Out, err))
 		} else {
-			if fl.Special != "" {
+			if fl.Special == "fn" {
+				s, ls := fnGenerate(f, fl.Funcs)
+				b.WriteString(s)
+				lostItems = append(lostItems, ls...)
+			} else if fl.Special != "" {
 				s, err := special(fl.Special, f)
 				if err != nil {
 					lostItems = append(lostItems, fmt.Sprintf("anchor %s lost: %v", fl.Special, err))
